@@ -55,12 +55,15 @@ Init == /\ jar = [s \in Slots |-> None] /\ last = 0 /\ n = 0 /\ hist = <<>>
 
 \* ct = "rep": the session's fields are long runs and repetitions (many kilobytes that compress into ONE cookie) instead of
 \* incompressible tokens - for the jar it is a one-part save like any other
-Save(p, ct) == /\ Len(hist) < MaxOps
+\* who = "same": the save is of the SAME identity as the previous save (a refresh, a repeated login: only tokens, groups, nonce and
+\* expiry differ); "other": another user's session. For the jar both are saves like any other.
+Save(p, ct, who) == /\ Len(hist) < MaxOps
            /\ (ct = "rep" => p = 1)
+           /\ (n = 0 => who = "other")
            /\ n' = n + 1
            /\ jar' = AfterSave(jar, Parts(p), n + 1)
            /\ last' = n + 1
-           /\ hist' = Append(hist, [a |-> "save", args |-> [parts |-> p, id |-> n + 1, content |-> ct],
+           /\ hist' = Append(hist, [a |-> "save", args |-> [parts |-> p, id |-> n + 1, content |-> ct, who |-> who],
                                     req  |-> [loaded |-> n + 1, intact |-> TRUE, maxCookie |-> [le |-> 4096]],
                                     impl |-> [loaded |-> Load(jar')]])
            /\ UNCHANGED cfg
@@ -71,7 +74,7 @@ Clear == /\ Len(hist) < MaxOps
          /\ hist' = Append(hist, [a |-> "clear", args |-> [parts |-> 0, id |-> 0],
                                   req |-> [loaded |-> 0], impl |-> [loaded |-> Load(jar')]])
          /\ UNCHANGED <<n, cfg>>
-Next == (\E p \in 1..MaxParts, ct \in {"rand", "rep"} : Save(p, ct)) \/ Clear
+Next == (\E p \in 1..MaxParts, ct \in {"rand", "rep"}, who \in {"same", "other"} : Save(p, ct, who)) \/ Clear
 
 \* ---- properties ----------------------------------------------------------------------------
 C10_RoundTrip == Load(jar) = last
